@@ -343,6 +343,12 @@ func NewMultiBLSFromPublicKey(publicKey []byte) (MultiPublicKeyI, error) {
 	if err = mask.SetMask(mpk.Bitmap); err != nil {
 		return nil, err
 	}
+	// the bitmap is padded to whole bytes; the padding bits (indices >= number of keys) must be zero: they are
+	// outside the signed bytes, the address and the aggregation, so every pattern of them would be another
+	// serialization of the same signer key - and another transaction hash - for one signature
+	if n := len(mpk.PublicKeys); n%8 != 0 && mpk.Bitmap[len(mpk.Bitmap)-1]>>uint(n%8) != 0 {
+		return nil, errInvalidPK
+	}
 	return newBLSMultiPublicKey(mask, mpk.Threshold), nil
 }
 
